@@ -72,10 +72,13 @@ class Tools:
                                  os.path.join(ws, "user", "build")], env=env, timeout=timeout)
         return rc, err
 
-    def startup(self, ws, full=False, timeout=600):
+    def startup(self, ws, full=False, deplog=None, timeout=600):
         """the frontends' start-up deployment (API: start_maintenance(full) + join) in a fresh process -> (rc, started)"""
+        env = dict(self.env)
+        if deplog:
+            env["VERIF_DEPLOG"] = deplog
         rc, out, err = vlib.sh2([self.deptool, "startup", os.path.join(ws, "user"), os.path.join(ws, "shared"),
-                                 os.path.join(ws, "user", "build"), "full" if full else "check"], env=self.env, timeout=timeout)
+                                 os.path.join(ws, "user", "build"), "full" if full else "check"], env=env, timeout=timeout)
         return rc, ("started=1" in out), err
 
     def probe(self, ws):
@@ -334,11 +337,16 @@ BIN_KINDS = ("table", "prism", "reverse")
 
 
 def sweep(T, scratch, name, state, pre_state=None, mode="hook", points=None, max_points=None, rng=None, mtimes=None,
-          pre_mtimes=None, keep=None):
+          pre_mtimes=None, keep=None, redeploy="full", stamp=None):
     """Kill a deployment of `state` at kill points and check the property's oracle.
 
     mode 'hook': RIME_VERIF_CRASHPOINT ordinals; 'sys': file-system calls (LD_PRELOAD).
     pre_state: deploy it completely first, then edit the sources to `state` (redeploy scenario).
+    redeploy 'full': the next deployment is `rime_deployer --build` (WorkspaceUpdate unconditionally);
+             'startup': it is the frontends' start-up path, RimeStartMaintenance(False) through the API in a fresh
+             process, which deploys only if DetectModifications finds a source newer than var/last_build_time.
+    stamp: with a pre_state, the value var/last_build_time is set to after the pre-state deployment (the synthetic
+           mtimes lie in the past; the stamp must lie between the pre-state's and the edit's).
     Returns dict(points_total, points_run, sites, failures=[...], outcomes)."""
     base = os.path.join(scratch, name)
     shutil.rmtree(base, ignore_errors=True)
@@ -347,7 +355,7 @@ def sweep(T, scratch, name, state, pre_state=None, mode="hook", points=None, max
     materialise(ref, state, mtimes)
     rc, err = T.deploy(ref)
     res = dict(name=name, mode=mode, failures=[], outcomes={}, sites={}, points_total=0, points_run=0, observations=[],
-               all_points=[])
+               all_points=[], redeploy=redeploy, startup_started=0, startup_skipped=0)
     if rc != 0:
         res["failures"].append(dict(kind="clean-deploy-failed", point=0, site="-", detail=err[-2000:]))
         return res
@@ -364,6 +372,9 @@ def sweep(T, scratch, name, state, pre_state=None, mode="hook", points=None, max
             return res
         _, pre_dump = T.dump(start)
         texts |= texts_of(pre_dump)
+        if stamp is not None:
+            with open(os.path.join(start, "user", "user.yaml"), "w") as f:
+                f.write("var:\n  last_build_time: %d\n" % stamp)
         materialise(start, state, mtimes)
     else:
         materialise(start, state, mtimes)
@@ -445,7 +456,11 @@ def sweep(T, scratch, name, state, pre_state=None, mode="hook", points=None, max
         dlog = os.path.join(base, "deplog.txt")
         if os.path.exists(dlog):
             os.remove(dlog)
-        rc2, err2 = T.deploy(run, deplog=dlog)
+        if redeploy == "startup":
+            rc2, started, err2 = T.startup(run, full=False, deplog=dlog)
+            res["startup_started" if started else "startup_skipped"] += 1
+        else:
+            rc2, err2 = T.deploy(run, deplog=dlog)
         # the window between table->Save() and the reverse db: an accepted table whose reverse db is missing or
         # rejected must make the next deployment decide rebuild_table=1 for that dictionary
         try:
